@@ -75,7 +75,8 @@ pub struct History {
     pub ops: Vec<Op>,
 }
 
-pub const SCENES: [u64; 3] = [0, 7, 1_000_000_007];
+/// the last two scene ids differ only above bit 31
+pub const SCENES: [u64; 3] = [0, 7, 7 + (1u64 << 32)];
 
 /// deterministic appearance prototype / variation
 pub fn feature(proto: u8, var: u8, dim: usize) -> Vec<f32> {
